@@ -267,7 +267,9 @@ func c12Units(tier string, seed int64) []Unit {
 					continue
 				}
 				calls := 0
+				ExecBegin(fmt.Sprintf("minimize(%#x, x >= %#x)", u, T))
 				got := rapid.VerifMinimize(u, func(x uint64) bool { calls++; return x >= T })
+				ExecEnd()
 				c.R.Evals++
 				c.R.States++
 				c.R.Transitions += int64(calls)
